@@ -83,3 +83,10 @@ def run(ctx):
         if np.max(np.abs(zs)) > 6.1 or not np.all(exact):
             ctx.violation("acceptance-frequency", "acceptance frequencies deviate from L_i/L_max: max |z| = %.2f"
                           % np.max(np.abs(zs)), dict(p=p, hits=hits, runs=runs))
+
+    # a monitor that could not recognise the recorded draw pattern has not judged that session: if that happens often the
+    # verdict is "inconclusive", never "held"
+    _skipped = ctx.counters.get("pattern_not_found", 0) + ctx.counters.get("sessions_without_row_identity", 0) \
+        + ctx.counters.get("rejection_sessions_without_row_identity", 0) + ctx.counters.get("iterative_sessions_without_row_identity", 0)
+    if ctx.replay is None and _skipped > 0.25 * (n):
+        ctx.inconclusive = "%d of %d sessions could not be judged (draw pattern or row identity not recognised)" % (_skipped, n)
